@@ -51,7 +51,8 @@ def interpolate_p(p, q):
     return: a tuple of new (p, q)
     """
 
-    f = interp1d(p, q, kind="next", fill_value=(p[0], p[-1]), bounds_error=False)
+    # outside the given levels the quantile function stays at its end values
+    f = interp1d(p, q, kind="next", fill_value=(q[0], q[-1]), bounds_error=False)
     # range
     # new_p = np.linspace(p[0], p[-1], Params.steps)
     new_p = Params.p_values
